@@ -155,11 +155,11 @@ Proof.
                             + (b * d) * (cos (INR n * x) * cos (INR m * x)))))).
   - intros x. ring.
   - apply (RInt_val _ _ _ ((a * c) * 0 + ((a * d) * 0 + ((b * c) * 0 + (b * d) * 0)))); [ring|].
-    repeat apply RInt_plus2; apply RInt_scal2.
-    + apply int_ss; assumption.
-    + apply int_sc; assumption.
-    + apply int_sc; assumption.
-    + apply int_cc; assumption.
+    pose proof (int_ss _ _ Qn Qm Hd Hs) as H1. pose proof (int_sc _ _ Qn Qm) as H2.
+    pose proof (int_sc _ _ Qm Qn) as H3. pose proof (int_cc _ _ Qn Qm Hd Hs) as H4.
+    exact (RInt_plus2 _ _ _ _ _ _ (RInt_scal2 _ _ _ (a * c) _ H1)
+            (RInt_plus2 _ _ _ _ _ _ (RInt_scal2 _ _ _ (a * d) _ H2)
+              (RInt_plus2 _ _ _ _ _ _ (RInt_scal2 _ _ _ (b * c) _ H3) (RInt_scal2 _ _ _ (b * d) _ H4)))).
 Qed.
 
 Lemma int_term_sq n ab : (1 <= n)%nat ->
@@ -173,10 +173,11 @@ Proof.
                             + (b * b) * (cos (INR n * x) * cos (INR n * x))))).
   - intros x. ring.
   - apply (RInt_val _ _ _ ((a * a) * PI + ((2 * a * b) * 0 + (b * b) * PI))); [ring|].
-    repeat apply RInt_plus2; apply RInt_scal2.
-    + apply int_ss_diag; [assumption|lra].
-    + apply int_sc; assumption.
-    + apply int_cc_diag; [assumption|lra].
+    assert (Hn0 : INR n <> 0) by lra.
+    pose proof (int_ss_diag _ Qn Hn0) as H1. pose proof (int_sc _ _ Qn Qn) as H2.
+    pose proof (int_cc_diag _ Qn Hn0) as H3.
+    exact (RInt_plus2 _ _ _ _ _ _ (RInt_scal2 _ _ _ (a * a) _ H1)
+            (RInt_plus2 _ _ _ _ _ _ (RInt_scal2 _ _ _ (2 * a * b) _ H2) (RInt_scal2 _ _ _ (b * b) _ H3))).
 Qed.
 
 (* ---- series ---- *)
